@@ -11,5 +11,5 @@ CONSTANTS
   MaxAccept = 3
   MaxEnd = 2
   Variant = "no_full_check_on_ack"
-INVARIANTS TypeOK KeyUnique LimitRespected NoEviction BacklogBound RefusedOnlyWhenFull AcceptFifo AcceptCallOrder SlotsBounded NoIdleAcceptor
+INVARIANTS TypeOK KeyUnique LimitRespected NoEviction BacklogBound RefusedOnlyWhenFull AcceptFifo AcceptCallOrder SlotsBounded NoIdleAcceptor ParkedNotStarved
 CHECK_DEADLOCK FALSE
